@@ -8,19 +8,30 @@ Line protocol for K_C15 (users 0 and 1; every line except `reset` first moves th
   `send <u> ok|fail <m>`               the pending `send_server_messages` of u's worker returns / raises
   `resp <u> exists|notexists|error <m>` the pending `wait_for_server_message` returns / raises (not a timeout)
   `adv <seconds>`                      virtual time passes: due retry timers and response timeouts fire in order
+  `fire <u> <off>`                     virtual time passes up to the instant u's retry timer is due (everything due earlier
+                                       happens first) and the timer fires — but its task (`_request_retry`, which puts
+                                       the retry request on the queue) has not run yet: the following lines with `+` are
+                                       issued in that window, the task runs before the next time the workers run.
+                                       `off` < 1 s: ticks past the due instant at which the loop gets to run the timer
+                                       (the retry task started its sleep up to a tick after the failure; the clock lands
+                                       as many ticks after the instant as a plain `adv` issued now would)
   `close`                              server connection CLOSED (tracking dropped, session destroyed)
   `login`                              SessionInitializedEvent: own name and friends list tracked with FRIEND
   `cycle <m>`                          one `TransferManager.manage_user_tracking`
   `friend <u> 0|1`                     name removed from / added to `settings.users.friends` (and noticed)
   `tadd <u> <m>`                       a transfer for u is added (ids 0, 1, 2, … in creation order)
   `tfin <id> <m>` `tque <id> <m>`      transfer finalized (abort) / queued again
-  `trm <id> <m>`                       `TransferManager.remove`
+  `trm <id> <m>`                       `TransferManager.remove`, start to end
+  `trmp <id> <phases> <m>`             a `remove` that waits in between: the steps `1` (existence check, abort),
+                                       `2` (taken off the list), `3` (last transfer of that user? then the reason is
+                                       withdrawn) it takes now, e.g. `12`, `3`; the workers run before the steps as well
 
 `<m>` = `.` workers run until they park again | `!` the same (the implementation only yields once — this is
 where the finished-not-yet-reaped window is hit; the fixed code, hence the model, does not distinguish) |
 `+` workers do not run (the next op is issued back-to-back).
 Output: `[refused ]<user 0> | <user 1>` with `f=<flags> s=<U|T|P> g=<-|A|W|R> a=<attempts> e=<events>`;
-`refused` = no such call is pending / no such transfer (in that state); `bad-op`, `bad-user`, `bad-flag` for what the harness never sends.
+`refused` = no such call is pending / no such transfer (in that state) / the transfer is being removed / no retry timer is
+pending / that step of the removal is not the next one; `bad-op`, `bad-user`, `bad-flag` for what the harness never sends.
 -/
 open AioslskVerif.Track AioslskVerif.Generated.Track
 
@@ -76,87 +87,146 @@ partial def advTo (s : State) (target : Nat) : State :=
     let s := step s (if t.2.2 then .retryFires t.2.1 else .workerStep t.2.1 .timeout)
     advTo s target
 
-def finish (w : World) (m : String) (pre : String := "") : World × String :=
-  let w := if m == "+" then w else { w with t := settle w.t }
-  (w, pre ++ obs w.t)
+/-- the driver's state: the world, and the user whose retry timer has fired while its task has not run yet -/
+structure DState where
+  w : World
+  pend : Option Nat
+
+/-- the retry task whose timer has fired runs (it is ahead of every worker in the loop's ready queue) -/
+def applyPend (d : DState) : World :=
+  match d.pend with
+  | some u => { d.w with t := step d.w.t (.retryFires u) }
+  | none => d.w
+
+def finish (d : DState) (m : String) (pre : String := "") : DState × String :=
+  let d' : DState := if m == "+" then d else ⟨{ applyPend d with t := settle (applyPend d).t }, none⟩
+  (d', pre ++ obs d'.w.t)
 
 def okMod (m : String) : Bool := m == "." || m == "+" || m == "!"
 
-def handle (w0 : World) (line : String) : World × String :=
-  let w : World := { w0 with t := step w0.t (.advance 1) }
+def removing (w : World) (id : Nat) : Bool := w.rm.any (fun r => r.id == id)
+
+/-- the steps of a removal, each only when it is the next one -/
+def phases (w : World) (id : Nat) : List Char → Option World
+  | [] => some w
+  | c :: cs =>
+    if c == '1' then
+      (if (w.xfers.any (fun x => x.id == id)) && !removing w id then phases (wstep w (.trmStart id)) id cs else none)
+    else if c == '2' then
+      (if w.rm.any (fun r => r.id == id && r.dropped.isNone) then phases (wstep w (.trmDrop id)) id cs else none)
+    else if c == '3' then
+      (if w.rm.any (fun r => r.id == id && r.dropped.isSome) then phases (wstep w (.trmEnd id)) id cs else none)
+    else none
+
+def handle (d0 : DState) (line : String) : DState × String :=
+  let d : DState := { d0 with w := { d0.w with t := step d0.w.t (.advance 1) } }
+  let w := d.w
   let s := w.t
+  let on (w' : World) : DState := { d with w := w' }
   match (line.splitOn " ").filter (· ≠ "") with
-  | ["reset"] => (World.init, "ok")
+  | ["reset"] => (⟨World.init, none⟩, "ok")
+  | ["trmp", id, ph, m] =>
+    if !okMod m then (d0, "bad-op") else
+    match id.toNat? with
+    | none => (d0, "bad-op")
+    | some id =>
+      let d1 : DState := ⟨{ applyPend d with t := settle (applyPend d).t }, none⟩
+      if ph.isEmpty then finish d1 m "refused " else
+      match phases d1.w id ph.toList with
+      | some w' => finish { d1 with w := w' } m
+      | none => finish d1 m "refused "
   | [c, u, f, m] =>
-    if !okMod m then (w0, "bad-op") else
+    if !okMod m then (d0, "bad-op") else
     match u.toNat? with
-    | none => (w0, "bad-op")
+    | none => (d0, "bad-op")
     | some u =>
-      if u > 1 then (w0, "bad-user") else
+      if u > 1 then (d0, "bad-user") else
       if c == "track" || c == "untrack" then
         match f.toNat? with
-        | none => (w0, "bad-op")
+        | none => (d0, "bad-op")
         | some n =>
           match decodeFlags n with
-          | none => (w0, "bad-flag")
-          | some fl => finish (wstep w (.base (if c == "track" then .track u fl else .untrack u fl))) m
+          | none => (d0, "bad-flag")
+          | some fl => finish (on (wstep w (.base (if c == "track" then .track u fl else .untrack u fl)))) m
       else if c == "send" then
         let env? : Option Env := if f == "ok" then some .sendOk else if f == "fail" then some .sendFail else none
         match env?, (s.users u).entry with
-        | none, _ => (w0, "bad-op")
+        | none, _ => (d0, "bad-op")
         | some env, some e =>
-          if e.pc == .sendAdd || e.pc == .sendRemove then finish (wstep w (.base (.workerStep u env))) m
-          else finish w m "refused "
-        | some _, none => finish w m "refused "
+          if e.pc == .sendAdd || e.pc == .sendRemove then finish (on (wstep w (.base (.workerStep u env)))) m
+          else finish d m "refused "
+        | some _, none => finish d m "refused "
       else if c == "resp" then
         let env? : Option Env := if f == "exists" then some .exists else if f == "notexists" then some .notExists
           else if f == "error" then some .error else none
         match env?, (s.users u).entry with
-        | none, _ => (w0, "bad-op")
+        | none, _ => (d0, "bad-op")
         | some env, some e =>
           (match e.pc with
-           | .waitResp _ => finish (wstep w (.base (.workerStep u env))) m
-           | _ => finish w m "refused ")
-        | some _, none => finish w m "refused "
-      else (w0, "bad-op")
-  | ["adv", d] =>
-    match d.toNat? with
-    | some d => finish { w with t := advTo s (s.now + d * tps) } "."
-    | none => (w0, "bad-op")
-  | ["close"] => finish (wstep w (.base .serverClosed)) "."
+           | .waitResp _ => finish (on (wstep w (.base (.workerStep u env)))) m
+           | _ => finish d m "refused ")
+        | some _, none => finish d m "refused "
+      else (d0, "bad-op")
+  | ["adv", n] =>
+    match n.toNat? with
+    | some n =>
+      let w1 := applyPend d
+      finish ⟨{ w1 with t := advTo w1.t (w1.t.now + n * tps) }, none⟩ "."
+    | none => (d0, "bad-op")
+  | ["fire", u, off] =>
+    match u.toNat?, off.toNat? with
+    | some u, some off =>
+      if u > 1 then (d0, "bad-user") else
+      if off ≥ tps then (d0, "bad-op") else
+      -- whatever is runnable runs first
+      let d1 : DState := ⟨{ applyPend d with t := settle (applyPend d).t }, none⟩
+      match (d1.w.t.users u).entry with
+      | none => finish d1 "." "refused "
+      | some e =>
+        match e.retry with
+        | none => finish d1 "." "refused "
+        | some t =>
+          let s1 := d1.w.t
+          if t.due < s1.now then finish d1 "." "refused " else
+          let s2 := if s1.now + 1 < t.due then advTo s1 (t.due - 1) else s1
+          let s3 := step s2 (.advance (t.due + off - s2.now))
+          finish ⟨{ d1.w with t := s3 }, some u⟩ "+"
+    | _, _ => (d0, "bad-op")
+  | ["close"] => finish (on (wstep (applyPend d) (.base .serverClosed))) "."
   -- the owners of the reasons (session layer)
-  | ["login"] => finish (wstep w .login) "."
-  | ["cycle", m] => if !okMod m then (w0, "bad-op") else finish (wstep w .cycle) m
+  | ["login"] => finish (on (wstep w .login)) "."
+  | ["cycle", m] => if !okMod m then (d0, "bad-op") else finish (on (wstep w .cycle)) m
   | ["friend", u, b] =>
     match u.toNat?, b with
-    | some u, "1" => if u > 1 then (w0, "bad-user") else finish (wstep w (.friend u true)) "."
-    | some u, "0" => if u > 1 then (w0, "bad-user") else finish (wstep w (.friend u false)) "."
-    | _, _ => (w0, "bad-op")
+    | some u, "1" => if u > 1 then (d0, "bad-user") else finish (on (wstep w (.friend u true))) "."
+    | some u, "0" => if u > 1 then (d0, "bad-user") else finish (on (wstep w (.friend u false))) "."
+    | _, _ => (d0, "bad-op")
   | ["tadd", u, m] =>
-    if !okMod m then (w0, "bad-op") else
+    if !okMod m then (d0, "bad-op") else
     match u.toNat? with
-    | some u => if u > 1 then (w0, "bad-user") else finish (wstep w (.tadd u)) m
-    | none => (w0, "bad-op")
+    | some u => if u > 1 then (d0, "bad-user") else finish (on (wstep w (.tadd u))) m
+    | none => (d0, "bad-op")
   | [c, id, m] =>
-    if !okMod m then (w0, "bad-op") else
+    if !okMod m then (d0, "bad-op") else
     match id.toNat? with
-    | none => (w0, "bad-op")
+    | none => (d0, "bad-op")
     | some id =>
       match w.xfers.find? (fun x => x.id = id) with
-      | none => if c == "tfin" || c == "tque" || c == "trm" then finish w m "refused " else (w0, "bad-op")
+      | none => if c == "tfin" || c == "tque" || c == "trm" then finish d m "refused " else (d0, "bad-op")
       | some x =>
-        if c == "tfin" then (if x.finished then finish w m "refused " else finish (wstep w (.tfin id)) m)
-        else if c == "tque" then (if x.finished then finish (wstep w (.tque id)) m else finish w m "refused ")
-        else if c == "trm" then finish (wstep w (.trm id)) m
-        else (w0, "bad-op")
-  | _ => (w0, "bad-op")
+        if !(c == "tfin" || c == "tque" || c == "trm") then (d0, "bad-op")
+        else if removing w id then finish d m "refused "
+        else if c == "tfin" then (if x.finished then finish d m "refused " else finish (on (wstep w (.tfin id))) m)
+        else if c == "tque" then (if x.finished then finish (on (wstep w (.tque id))) m else finish d m "refused ")
+        else finish (on (wstep w (.trm id))) m
+  | _ => (d0, "bad-op")
 
-partial def loop (h : IO.FS.Stream) (w : World) : IO Unit := do
+partial def loop (h : IO.FS.Stream) (d : DState) : IO Unit := do
   let line ← h.getLine
   if line.isEmpty then return ()
-  let (w', out) := handle w line.trimAscii.toString
+  let (d', out) := handle d line.trimAscii.toString
   IO.println out
-  loop h w'
+  loop h d'
 
 def main : IO Unit := do
-  loop (← IO.getStdin) World.init
+  loop (← IO.getStdin) ⟨World.init, none⟩
